@@ -24,6 +24,8 @@ pub trait Flavor: 'static {
     fn try_receive(c: &Self::Chan, id: StateId) -> Option<(StateId, CTag)>;
     fn snapshot(c: &Self::Chan) -> Snapshot;
     fn node(f: &Self::Fut) -> NodeSnap;
+    fn debug(c: &Self::Chan) -> String;
+    fn node_debug(f: &Self::Fut) -> String;
     fn senders(_c: &Self::Chan) -> usize {
         1
     }
@@ -65,6 +67,12 @@ impl<M: RawMutex + 'static> Flavor for Borrowed<M> {
     fn node(f: &Self::Fut) -> NodeSnap {
         f.verif_node()
     }
+    fn debug(c: &Self::Chan) -> String {
+        c.verif_debug()
+    }
+    fn node_debug(f: &Self::Fut) -> String {
+        f.verif_node_debug()
+    }
 }
 
 pub struct SChan<M: RawMutex + 'static> {
@@ -73,7 +81,7 @@ pub struct SChan<M: RawMutex + 'static> {
     vref: sh::VerifSharedState<M, CTag>,
 }
 
-impl<M: RawMutex + 'static> Flavor for Shared<M> {
+impl<M: RawMutex + std::fmt::Debug + 'static> Flavor for Shared<M> {
     const SHARED: bool = true;
     type Chan = SChan<M>;
     type Fut = sh::StateReceiveFuture<M, CTag>;
@@ -99,6 +107,12 @@ impl<M: RawMutex + 'static> Flavor for Shared<M> {
     }
     fn node(f: &Self::Fut) -> NodeSnap {
         f.verif_node()
+    }
+    fn debug(c: &Self::Chan) -> String {
+        c.vref.verif_debug()
+    }
+    fn node_debug(f: &Self::Fut) -> String {
+        f.verif_node_debug()
     }
     fn senders(c: &Self::Chan) -> usize {
         c.tx.len()
@@ -534,6 +548,7 @@ impl<F: Flavor> System for Sys<F> {
                     r.push(structcheck::waker_code(n.waker, G, i));
                     r.push(snap.queues[0].iter().position(|q| q.addr == n.addr).map_or(200, |p| p as u8));
                     r.push(s.fut.get().is_terminated() as u8);
+                    r.extend(harness::norm(&F::node_debug(s.fut.get())));
                     recs.push(r);
                 }
             }
@@ -545,6 +560,7 @@ impl<F: Flavor> System for Sys<F> {
             v.extend(r);
             v.push(253);
         }
+        v.extend(harness::norm(&F::debug(&self.chan)));
         v
     }
 
